@@ -18,6 +18,10 @@ META = {
                    "lifted first' and 'trigger modifiers not in the output are lifted' (C02-R3) are decided."),
 }
 
+# --- additions to the level description (rules added after the first version)
+META['level_text'] += ' R2: each listed output is either pressed there and then or found in a held-key list by a membership test on the live list (not on a copy taken before the releases); the events returned by release_action_mappings/release_absorbed_keys are appended to the output before any press.'
+# --- end additions
+
 ANM = MOD + "add_new_mapping"
 NP = MOD + "newly_press"
 RAM = MOD + "release_action_mappings"
@@ -134,6 +138,12 @@ def run(ctx):
             ok = len(rel) == 1 and rel[0].pos < lp[0]
             ck.ob("C04-R1", ANM, "key-producing-mapping:release_action_mappings-before-any-output-is-pressed", ok,
                   detail=None if ok else "%d calls, before the press loop: %s" % (len(rel), [r.pos < lp[0] for r in rel]))
+            # ... and the releases it returns enter the output stream before the presses do
+            if len(rel) == 1:
+                apps = [e for e in fx.effects if e.kind == "APPEND" and mir.strip(e.key) == rel[0].ev.c]
+                ok3 = len(apps) == 1 and rel[0].pos < apps[0].pos < lp[0]
+                ck.ob("C04-R1", ANM, "key-producing-mapping:the-releases-are-put-on-the-output-before-any-press", ok3,
+                      detail=None if ok3 else "the events returned by release_action_mappings are appended %s" % ("after the press loop" if apps else "nowhere on this path"))
         elif am == [False]:
             ck.ob("C04-R1", ANM, "modifier-remapping:does-not-lift-other-mappings'-modifiers", not rel)
         else:
@@ -177,6 +187,10 @@ def run(ctx):
             seen.add("action")
             ck.ob("C04-R1", NP, "non-modifier-pass-through:release_action_mappings-and-release_absorbed_keys-first", len(rel) == 1 and len(rab) == 1,
                   detail="%d/%d" % (len(rel), len(rab)))
+            for c in rel + rab:
+                apps = [e for e in fx.effects if e.kind == "APPEND" and mir.strip(e.key) == c.ev.c]
+                ok3 = len(apps) == 1 and c.pos < apps[0].pos < own[0].pos
+                ck.ob("C04-R1", NP, "non-modifier-pass-through:those-releases-are-put-on-the-output-before-the-press", ok3)
         elif act == [False]:
             seen.add("modifier")
             ck.ob("C04-R1", NP, "modifier-pass-through:lifts-nothing", not rel and not rab)
